@@ -151,16 +151,48 @@ class ReaderRecord:
         self.where, self.qual = floc(repo, f'{JH}.parser', func, rule)
         self.data = self.fn.args.args[0].arg
         paths = [p for p in Summarizer(repo, rule).function_paths(f'{JH}.parser', func) if p.end[0] == 'return']
-        if len(paths) != 1:
-            raise AnalysisError(rule, self.qual, f'expected one returning path, found {len(paths)}')
+        if not paths:
+            raise AnalysisError(rule, self.qual, 'no returning path')
         self.path = paths[0]
-        call = self.path.end[1]
-        if not (isinstance(call, ast.Call) and ast.unparse(call.func) == result_cls):
-            raise AnalysisError(rule, self.qual, f'does not return {result_cls}(...)')
         ci = repo.cls(result_cls, rule)
         names = [n for n in ci.order if n in ci.annots]
-        self.fields: Dict[str, ast.AST] = dict(zip(names, call.args))
-        self.fields.update({k.arg: k.value for k in call.keywords})
+        per_path = []
+        for pth in paths:
+            call = pth.end[1]
+            if not (isinstance(call, ast.Call) and ast.unparse(call.func) == result_cls):
+                raise AnalysisError(rule, self.qual, f'does not return {result_cls}(...)')
+            d = dict(zip(names, call.args))
+            d.update({k.arg: k.value for k in call.keywords})
+            per_path.append(d)
+        self.fields: Dict[str, ast.AST] = {}
+        for fld in per_path[0]:
+            alts = {}
+            for pth, d in zip(paths, per_path):
+                if fld not in d:
+                    raise AnalysisError(rule, self.qual, f'field {fld} is not supplied on every path')
+                alts.setdefault(ast.unparse(d[fld]), (d[fld], []))[1].append(pth)
+            if len(alts) == 1:
+                self.fields[fld] = next(iter(alts.values()))[0]
+                continue
+            # `x = None; if <guard>: x = E`  (statement form of `E if <guard> else None`): rebuild the conditional expression
+            none_alt = [k for k, (e, _) in alts.items() if isinstance(e, ast.Constant) and e.value is None]
+            if len(alts) != 2 or len(none_alt) != 1:
+                raise AnalysisError(rule, self.qual, f'field {fld} has {len(alts)} different definitions over the paths of the converter')
+            (e1, p1) = next(v for k, v in alts.items() if k != none_alt[0])
+            (_, p0) = alts[none_alt[0]]
+
+            def condset(pth):
+                return {(ast.unparse(c.test), c.polarity): c for c in pth.conds()}
+            common1 = set.intersection(*[set(condset(x)) for x in p1])
+            common0 = set.intersection(*[set(condset(x)) for x in p0])
+            sel = [(t, pol) for (t, pol) in common1 if (t, not pol) in common0]
+            if len(sel) != 1:
+                raise AnalysisError(rule, self.qual, f'cannot find the guard that decides field {fld}')
+            t, pol = sel[0]
+            test = condset(p1[0])[(t, pol)].test
+            if not pol:
+                test = ast.UnaryOp(ast.Not(), test)
+            self.fields[fld] = ast.IfExp(test, e1, ast.Constant(None))
         self.annots = {n: parse_annotation(ci.annots[n]) for n in names}
         self.ti = TypeInfer(repo, self.m, {}, raw_names=[self.data])
         self.setting = setting
